@@ -48,34 +48,36 @@ def mix (h x : Nat) : Nat := (h * 1000003 + x + 1) % digestP
 def digest (tr : List Ev) : Nat :=
   tr.foldl (fun h e => e.enclosing.foldl mix (mix (mix h e.id) e.enclosing.length)) 7
 
-def parseCase (args : List Json) : Option (Env × List Node) :=
-  match args with
-  | [lim, depth, tpls, main] => do
-    pure ({ limit := ← optNat? lim, depth := ← asNat? depth, templates := ← parseTpls tpls }, ← parseNodes main)
-  | _ => none
+def parseLimits (j : Json) : Option (List (Option Nat)) := do
+  let xs ← asArr? j
+  xs.mapM optNat?
 
-/-- `["c06", limit|null, depth, [[name, nodes]…], nodes]` →
+def runJson (full : Bool) (E : Env) (main : List Node) : Json :=
+  match renderTemplate E main with
+  | .ok (_, tr) =>
+    if full then Json.mkObj [("result", jstr "ok"), ("events", jarr (tr.map evJson))] else
+    Json.mkObj [("result", jstr "ok"), ("n", jnat tr.length),
+                ("max", jnat (tr.foldl (fun a e => max a (prod e.enclosing)) 0)),
+                ("digest", jstr (toString (digest tr))), ("head", jarr ((tr.take 12).map evJson))]
+  | .error e =>
+    if full then Json.mkObj [("result", jstr (errName e)), ("events", jarr [])] else
+    Json.mkObj [("result", jstr (errName e)), ("n", jnat 0), ("max", jnat 0),
+                ("digest", jstr (toString (digest []))), ("head", jarr [])]
+
+/-- `["c06", [limit|null …], depth, [[name, nodes]…], nodes]` → `{"runs": [one per limit]}` with
     `{"result": "ok"|<error class>, "n": #executions, "max": max product, "digest": "<decimal>", "head": first 12 executions}`.
     The digest covers every execution with all its enclosing lengths; `c06full` returns them all. -/
-def handle (args : List Json) : Json :=
-  match parseCase args with
-  | some (E, main) =>
-    match renderTemplate E main with
-    | .ok (_, tr) =>
-      Json.mkObj [("result", jstr "ok"), ("n", jnat tr.length),
-                  ("max", jnat (tr.foldl (fun a e => max a (prod e.enclosing)) 0)),
-                  ("digest", jstr (toString (digest tr))), ("head", jarr ((tr.take 12).map evJson))]
-    | .error e => Json.mkObj [("result", jstr (errName e)), ("n", jnat 0), ("max", jnat 0),
-                              ("digest", jstr (toString (digest []))), ("head", jarr [])]
-  | none => jerr "bad-case"
+def handleWith (full : Bool) (args : List Json) : Json :=
+  match args with
+  | [lims, depth, tpls, main] =>
+    match parseLimits lims, asNat? depth, parseTpls tpls, parseNodes main with
+    | some lims, some depth, some tpls, some main =>
+      Json.mkObj [("runs", jarr (lims.map fun l => runJson full { limit := l, depth := depth, templates := tpls } main))]
+    | _, _, _, _ => jerr "bad-case"
+  | _ => jerr "bad-args"
 
-def handleFull (args : List Json) : Json :=
-  match parseCase args with
-  | some (E, main) =>
-    match renderTemplate E main with
-    | .ok (_, tr) => Json.mkObj [("result", jstr "ok"), ("events", jarr (tr.map evJson))]
-    | .error e => Json.mkObj [("result", jstr (errName e)), ("events", jarr [])]
-  | none => jerr "bad-case"
+def handle := handleWith false
+def handleFull := handleWith true
 
 def commands : List (String × (List Lean.Json → Lean.Json)) := [("c06", handle), ("c06full", handleFull)]
 
